@@ -436,6 +436,59 @@ def scenario_records(ctx, k, workdir):
         fs_record(dsrc, sdd, sp, [rng.randint(1, x) for x in full], rng.random() < 0.6, rng.random() < 0.5)
         mdl = {e['key']: {'seg': tuple(e['seg']), 'og': e['og'], 'calls': {p: tuple(c) for p, c in e['calls'].items()}} for e in out['dd']}
         stats_record(dsrc, sdd, mdl, [sp[0]], [full[0]], True, True)
+
+    # ---- 7. bootstraps_subsample_vcf: the per-population subsample DICT lists the populations in another order than
+    # pop_ids (reversed, rotated), with unequal sizes.  The dictionaries and fragments made inside the call are captured
+    # (module attributes are looked up at call time) and the chunk draws are those of random.choices after random.seed:
+    # every replicate is one 'boot' record over the subsampled dictionary with the documented sample sizes 2 * subsample[pop]
+    # in pop_ids order, and one 'vcf_sub' record for the dictionary itself.
+    if P >= 2:
+        orders = [('reversed', lambda q: q[::-1])] + ([('rotated', lambda q: q[1:] + q[:1])] if P >= 3 else [])
+        for oname, reorder in orders:
+            pop_ids = list(pops) if rng.random() < 0.5 else rng.sample(pops, P)
+            ks = [rng.randint(1, scn['ninds'][pops.index(p)]) for p in pop_ids]
+            for attempt in range(20):
+                if len(set(ks)) == len(ks) or all(scn['ninds'][pops.index(p)] == 1 for p in pop_ids):
+                    break
+                ks = [rng.randint(1, scn['ninds'][pops.index(p)]) for p in pop_ids]
+            sub = {p: ks[pop_ids.index(p)] for p in reorder(pop_ids)}         # insertion order differs from pop_ids
+            sfilt, pol, mc = rng.random() < 0.7, rng.random() < 0.6, rng.random() < 0.5
+            bseed = rng.randint(0, 10 ** 6)
+            cs = span + 1
+            made, drawn, chunks = [], [], []
+            orig_mk, orig_boot = Misc.make_data_dict_vcf, Misc.bootstraps_from_dd_chunks
+
+            def mk(*a, **kw):
+                d = orig_mk(*a, **kw)
+                made.append(d)
+                return d
+
+            def boot(fragments, nb, *a, **kw):
+                random.seed(bseed + len(drawn))
+                drawn.append([[j + 1 for j in random.choices(range(len(fragments)), k=len(fragments))] for _ in range(nb)])
+                chunks.append([[str(x) for x in f] for f in fragments])
+                random.seed(bseed + len(drawn) - 1)
+                return orig_boot(fragments, nb, *a, **kw)
+            Misc.make_data_dict_vcf, Misc.bootstraps_from_dd_chunks = mk, boot
+            try:
+                res, out = observe(lambda: Misc.bootstraps_subsample_vcf(vcf, popf, dict(sub), 2, cs, list(pop_ids), filter=sfilt,
+                                                                          mask_corners=mc, polarized=pol), lambda bs: {'bs': [enc(b) for b in bs]})
+            finally:
+                Misc.make_data_dict_vcf, Misc.bootstraps_from_dd_chunks = orig_mk, orig_boot
+            site = 'Misc.bootstraps_subsample_vcf'
+            proj = [2 * int(sub[p]) for p in pop_ids]
+            call = {'sub_order': list(sub), 'order': oname, 'cs': int(cs)}
+            if res is None or len(made) != len(res) or len(drawn) != len(res):
+                add('boot', site, dict({'vcf': A, 'filter': sfilt}, pops=list(pop_ids), proj=proj, pol=pol, mask_corners=mc, chunks=[], drawn=[[], []],
+                                       bseed=bseed, call=call), out if res is None else {'raised': 'driver: %d dictionaries, %d draws for %d replicates' % (len(made), len(drawn), len(res))})
+                continue
+            for b in range(len(res)):
+                sdd_enc = enc_dd(made[b])
+                add('vcf_sub', site, {'vcf': A, 'filter': sfilt, 'sub': [{'pop': p, 'k': int(v)} for p, v in sub.items()], 'seed': -1}, {'dd': sdd_enc})
+                if len(chunks[b]) > 80:
+                    continue
+                add('boot', site, dict({'dd': sdd_enc}, pops=list(pop_ids), proj=proj, pol=pol, mask_corners=mc, chunks=chunks[b], drawn=drawn[b],
+                                       bseed=bseed + b, call=call), {'bs': [out['bs'][b]]})
     return recs
 
 
